@@ -1,14 +1,13 @@
 (** C16 — bridge: on a well-formed case, agreement of the implementation with the model
     ([run_case]) implies the property on the implementation's outcome ([prop_case]), for every
-    oracle of the family — except the RNG flag, which only the harness can observe, and the
-    [L125] cases whose closed form [spec_l125] is tied by evaluation only ([bridged]). *)
+    oracle of the family.  The only part of [prop_case] not implied is the RNG flag, which only
+    the harness can observe ([rng_flag]: the plan was identical under a second RNG seed). *)
 From V.Lib Require Import Base MachInt.
 From V.Gen Require Import C16Consts.
-From V.C16 Require Import Model Spec Corr Wf ProofsSeries ProofsSplit ProofsPlan Proofs.
+From V.C16 Require Import Model Spec Corr Wf ProofsSeries ProofsL125 ProofsSplit ProofsPlan Proofs.
 From Coq Require Import ZifyBool.
 Local Open Scope Z_scope.
 
-Definition bridged (c : case) : bool := match c with L125 _ _ _ => false | _ => true end.
 Definition rng_flag (c : case) : bool := match c with Plan _ _ _ _ _ _ _ same => same | _ => true end.
 
 Lemma lz_eqb_eq a b : lz_eqb a b = true <-> a = b.
@@ -99,10 +98,10 @@ Proof.
 Qed.
 
 Theorem agree_implies_property c :
-  wf_case c = true -> bridged c = true -> rng_flag c = true -> run_case c = true -> prop_case c = true.
+  wf_case c = true -> rng_flag c = true -> run_case c = true -> prop_case c = true.
 Proof.
   destruct c as [total nc cap buffer fee os o same | hi floor o | v o | cross buffer o];
-    cbn [wf_case bridged rng_flag run_case prop_case]; intros W B G R; try discriminate.
+    cbn [wf_case rng_flag run_case prop_case]; intros W G R.
   - subst same. cbn [andb].
     repeat match goal with H : _ && _ = true |- _ => apply andb_true_iff in H; destruct H end.
     assert (Hc : 1 <= cap) by lia.
@@ -111,6 +110,9 @@ Proof.
     rewrite Em in R. destruct o as [p| |]; cbn [outcome_eqb] in R; try discriminate.
     apply planrec_eqb_eq in R. subst p.
     apply plan_bridge; auto using is_zat_P.
+  - destruct o as [v| |]; cbn [outcome_eqb] in R; try discriminate.
+    apply Z.eqb_eq in R. subst v. destruct (is_pow10 floor) eqn:Pw; [|reflexivity].
+    apply Z.eqb_eq. apply l125_closed_form; [exact Pw|]. unfold in_u64, in_range in W. lia.
   - destruct o as [b| |]; cbn [outcome_eqb] in R; try discriminate.
     rewrite is_canonical_canonicalb in R. rewrite Bool.eqb_true_iff in R. subst b.
     apply Bool.eqb_reflx.
